@@ -515,13 +515,15 @@ func (ex *Explorer) wantSelfTest() bool {
 
 func (ex *Explorer) selfStride() int64 {
 	n := int64(len(ex.selfTests) + ex.selfPending)
-	switch n {
-	case 0:
+	switch {
+	case n == 0:
 		return 1
-	case 1:
+	case n == 1:
 		return 7
-	default:
+	case n < 4:
 		return 61
+	default:
+		return 97
 	}
 }
 
